@@ -18,9 +18,11 @@
    A STACK lists the scopes from the target's scope (level 0) up to the root: the parent of
    the nodes of level i is the node [snd] of level i+1.
 
+   Output signals are numbered: node v's `ran` is emitter [ran_of v = 2v], its `failed` is
+   [fail_of v = 2v+1]; input connection lists hold emitters, [c_ran] is indexed by emitter.
+
    What is NOT modelled: data values (fetching, readiness of data, caches -- every node is
-   fresh and triggered at most once, so it is a cache miss), the `failed` output signal's
-   connections, executors actually running, composite siblings other than the enclosing
+   fresh and triggered at most once, so it is a cache miss), executors actually running, composite siblings other than the enclosing
    ones, the iteration order of Python sets (the closure is processed in the order the
    model computes it; only the ORDER inside restored connection lists depends on it). *)
 From PW Require Import Base.
@@ -37,9 +39,9 @@ Definition memt := memb tgt_eqb.
 Record scope := mkScope {
   lbl : nat -> string;               (* label                                             *)
   ups : nat -> list nat;             (* owners of the data connections of all inputs      *)
-  c_run : nat -> list nat;           (* signals.input.run.connections   (emitters' `ran`) *)
+  c_run : nat -> list nat;           (* signals.input.run.connections: EMITTERS           *)
   c_acc : nat -> list nat;           (* signals.input.accumulate_and_run.connections      *)
-  c_ran : nat -> list (nat * isig);  (* signals.output.ran.connections                    *)
+  c_ran : nat -> list (nat * isig);  (* connections of an output signal, by EMITTER number *)
   recv : nat -> list nat;            (* accumulate_and_run.received_signals (emitters)    *)
   exe : nat -> bool;                 (* node.executor is not None                         *)
   bad : nat -> bool;                 (* the node's function raises                        *)
@@ -49,6 +51,10 @@ Record scope := mkScope {
   automate : bool;                   (* parent.automate_execution (Workflow parents)      *)
   pfailed : bool                     (* parent.failed for a (root) Workflow parent        *)
 }.
+
+(* output signals: ran / failed of node v *)
+Definition ran_of (v : nat) : nat := v + v.
+Definition fail_of (v : nat) : nat := S (v + v).
 
 Definition fupd {A} (f : nat -> A) (i : nat) (v : A) : nat -> A :=
   fun j => if Nat.eqb j i then v else f j.
@@ -119,7 +125,7 @@ Fixpoint disc_out_list sc e (snapshot : list (nat * isig)) : scope * list cpair 
 Definition disconnect_run sc r : scope * list cpair :=
   let '(sc1, p1) := disc_in_list sc r IRun (c_run sc r) in
   let '(sc2, p2) := disc_in_list sc1 r IAcc (c_acc sc1 r) in (sc2, p1 ++ p2).
-Definition ran_disconnect_all sc e : scope * list cpair := disc_out_list sc e (c_ran sc e).
+Definition ran_disconnect_all sc v : scope * list cpair := disc_out_list sc (ran_of v) (c_ran sc (ran_of v)).
 
 (* Channel.connect for one `other`: already listed on MY side -> nothing; else prepend on both *)
 Definition connect_in sc r s e : scope :=
@@ -186,7 +192,7 @@ Definition linear_order sc (D : list nat) : option (list nat) :=
 (* for i, label in enumerate(order[:-1]): nodes[label] >> nodes[order[i+1]] *)
 Fixpoint chain sc (order : list nat) : scope :=
   match order with
-  | a :: ((b :: _) as rest) => chain (connect_in sc b IRun a) rest
+  | a :: ((b :: _) as rest) => chain (connect_in sc b IRun (ran_of a)) rest
   | _ => sc
   end.
 
@@ -215,12 +221,16 @@ Definition acc_deliver sc (r e : nat) : scope * bool :=
   else (set_recv sc (fupd (recv sc) r rc), false).
 
 (* one Node.run() with default flags of a node that is NOT inside a running parent, given what
-   its emission does: readiness gate, the call (logged; may raise: failed:=True), then emit *)
+   emitting an output signal does: readiness gate, the call (logged), then emit `ran`; when the
+   function raises: failed:=True, `failed` is emitted (Runnable._run: _run_exception,
+   _run_finally, raise e), and an exception of a handler replaces the original one *)
 Definition run_with (emit : scope -> nat -> scope * list entry * res) (lv : nat) sc (r : nat)
   : scope * list entry * res :=
   if failed sc r then (sc, [], Err EReady)
-  else if bad sc r then (mark_failed sc r, [(lv, r)], Err EUser)
-  else let '(sc1, l, x) := emit sc r in (sc1, (lv, r) :: l, x).
+  else if bad sc r then
+    let '(sc1, l, x) := emit (mark_failed sc r) (fail_of r) in
+    (sc1, (lv, r) :: l, match x with Ok => Err EUser | Err _ => x end)
+  else let '(sc1, l, x) := emit sc (ran_of r) in (sc1, (lv, r) :: l, x).
 
 (* OutputSignal.__call__: for c in self.connections: c(self) -- depth first, exceptions leave *)
 Fixpoint deliver_all (runf : scope -> nat -> scope * list entry * res) (e : nat)
@@ -238,11 +248,11 @@ Fixpoint deliver_all (runf : scope -> nat -> scope * list entry * res) (e : nat)
     else deliver_all runf e rest sc1
   end.
 
-(* Node.emit() of node k outside a running parent: ran() *)
-Fixpoint emit_dfs (fuel : nat) (lv : nat) sc (k : nat) : scope * list entry * res :=
+(* calling the output signal (emitter) e outside a running parent *)
+Fixpoint emit_dfs (fuel : nat) (lv : nat) sc (e : nat) : scope * list entry * res :=
   match fuel with
   | 0 => (sc, [], Err EFuel)
-  | S f => deliver_all (run_with (emit_dfs f lv) lv) k (c_ran sc k) sc
+  | S f => deliver_all (run_with (emit_dfs f lv) lv) e (c_ran sc e) sc
   end.
 Definition run_dfs fuel lv sc k := run_with (emit_dfs fuel lv) lv sc k.
 
@@ -250,8 +260,8 @@ Definition run_dfs fuel lv sc k := run_with (emit_dfs fuel lv) lv sc k.
 Definition qitem := (nat * (nat * isig))%type.      (* (emitter, (receiver, trigger)) *)
 Definition run_q (lv : nat) sc (r : nat) : scope * list entry * list qitem * res :=
   if failed sc r then (sc, [], [], Err EReady)
-  else if bad sc r then (mark_failed sc r, [(lv, r)], [], Err EUser)
-  else (sc, [(lv, r)], map (fun t => (r, t)) (c_ran sc r), Ok).
+  else if bad sc r then (mark_failed sc r, [(lv, r)], map (fun t => (fail_of r, t)) (c_ran sc (fail_of r)), Err EUser)
+  else (sc, [(lv, r)], map (fun t => (ran_of r, t)) (c_ran sc (ran_of r)), Ok).
 
 (* Composite._run_while_children_or_signals_exist: pop(0), receiving(firing), errors collected *)
 Fixpoint queue_loop (fuel : nat) (lv : nat) sc (q : list qitem) (errs : bool)
@@ -291,9 +301,9 @@ Definition run_children fuel lv sc : scope * list entry * res :=
   | Ok => let '(sc2, l2, x2) := queue_loop fuel lv sc1 q1 false in (sc2, l1 ++ l2, x2)
   end.
 
-(* self.parent.run(): readiness of the parent, its children, parent.failed on an exception,
-   and -- for a Macro parent, whose run() keeps emit_ran_signal=True -- the emission of the
-   parent's `ran` among ITS siblings (scope [up]); a Workflow's run() never emits *)
+(* self.parent.run() (a Workflow) / self.parent.run(emit_ran_signal=False) (any other parent):
+   readiness of the parent, its children, parent.failed on an exception; the parent emits
+   nothing *)
 Definition upper := option (scope * nat).
 Definition run_parent fuel lv sc (up : upper) : scope * upper * list entry * res :=
   let pf := match par sc, up with
@@ -311,12 +321,7 @@ Definition run_parent fuel lv sc (up : upper) : scope * upper * list entry * res
       | PWf, _ => (set_pfailed sc1 true, up, l1, x1)
       | _, _ => (sc1, up, l1, x1)
       end
-    | Ok =>
-      match par sc, up with
-      | PMacro, Some (usc, pk) =>
-        let '(usc1, l2, x2) := emit_dfs fuel (S lv) usc pk in (sc1, Some (usc1, pk), l1 ++ l2, x2)
-      | _, _ => (sc1, up, l1, x1)
-      end
+    | Ok => (sc1, up, l1, x1)
     end.
 
 (* ---- Node.run_data_tree in one scope --------------------------------------------------- *)
@@ -435,7 +440,8 @@ Definition obs_node (ordered : bool) sc (i : nat) : obs :=
   let sn := if ordered then (fun l => l) else sort_n in
   let st := if ordered then (fun l => l) else sort_t in
   OL [OS (lbl sc i); obs_nats (sn (c_run sc i)); obs_nats (sn (c_acc sc i));
-      OL (map (fun t => OL [on (fst t); obs_isig (snd t)]) (st (c_ran sc i)));
+      OL (map (fun t => OL [on (fst t); obs_isig (snd t)]) (st (c_ran sc (ran_of i))));
+      OL (map (fun t => OL [on (fst t); obs_isig (snd t)]) (st (c_ran sc (fail_of i))));
       obs_nats (sort_n (recv sc i)); ob (failed sc i)].
 Definition obs_scope (ordered : bool) (n : nat) sc : obs :=
   OL [OL (map (obs_node ordered sc) (seq 0 n)); obs_nats (starting sc); ob (automate sc); ob (pfailed sc)].
